@@ -75,6 +75,20 @@ def step (line : String) : String :=
       let r := relay o (lines.filterMap id)
       (if r.isFailed then "failed" else "ok") ++ " " ++ " ".intercalate ((dedup r.findings).map findingStr)
     | _, _ => "bad-op"
+  | "ctuinfo" :: mask :: rest =>
+    -- rest: groups separated by "/" : the output lines of each addon (all exit 0)
+    match mask.toNat? with
+    | some mask =>
+      let groups := (rest.foldl (fun (acc : List (List String)) tok =>
+        if tok == "/" then [] :: acc else match acc with
+          | [] => [[tok]]
+          | g :: r => (g ++ [tok]) :: r) [[]]).reverse
+      let parsed := groups.map (fun g => g.map parseLine)
+      if parsed.any (fun g => g.any Option.isNone) then "bad-op" else
+      let o : Opts := ⟨fun s => (mask >>> sevBit s) % 2 == 1, 0⟩
+      let info := ctuInfo o (parsed.map (fun g => g.filterMap id))
+      "ctu " ++ " ".intercalate (info.map fun ob => match getStr "summary" ob.fields with | some n => toHex n | none => "?")
+    | none => "bad-op"
   | _ => "bad-op"
 
 end Driver.C34
